@@ -393,6 +393,22 @@ func indepCases(g *Gen, tc TreeCfg) {
 			}
 			pol = 0
 		}
+		if i%3 == 1 {
+			// the other way round: the destination holds a namespace where the source holds a plain
+			// value or a reference (what arrives there is the source's value object unless copied)
+			for len(dl) < 2 {
+				dl = append(dl, randScalar(r))
+			}
+			for len(sl) < 3 {
+				sl = append(sl, randScalar(r))
+			}
+			dl[1] = randMap(r, tc, 1)
+			if r.Bool() {
+				dl[1] = []interface{}{randScalar(r), randMap(r, tc, 2)}
+			}
+			sl[1] = []interface{}{"${2}", "plain", uint64(7), "x${0}"}[r.Intn(4)]
+			pol = 0
+		}
 		mo := append([]ucfg.Option{}, opts...)
 		if p := policyOpts[pol]; p.opt != nil {
 			mo = append(mo, p.opt)
